@@ -77,7 +77,16 @@ def main() -> int:
         if a.replay:
             rp = json.loads(Path(a.replay).read_text())
             mod.setup(ctx)
-            mod.replay(ctx, rp)
+            if "case" not in rp:
+                # a `no-failing-input-found` replay names the obligations / correspondence that no longer checked:
+                # re-check them now (setup has rebuilt and audited the theorems) and replay the first drifting input
+                print("replay of a no-failing-input-found report; obligations broken then:", rp.get("broken_obligations"))
+                print("obligations broken now:", ctx.broken_obligations or "none")
+                fd = rp.get("first_drift")
+                if fd and "case" in fd:
+                    mod.replay(ctx, {"case": fd["case"]})
+            else:
+                mod.replay(ctx, rp)
         else:
             mod.run(ctx)
         return ctx.finish()
